@@ -66,6 +66,17 @@ def no_projections(cx, b, tparam, key):
     cx.ob('KIND', f'{key}:whole-transform', not bad, f'{key}: the transform is applied as a whole (no .rotation / .translation / inverse of it)', where=b.file, found=', '.join(bad) if bad else None)
 
 
+def mesh_transform_rule(cx):
+    """shared with C13 (a section of the moved mesh is the moved section only if the mesh really moved)"""
+    b = cx.fn('geom3::mesh::Mesh::transform')
+    if b:
+        tv = b.calls('TriMesh::transform_vertices')
+        ok = len(tv) == 1 and match('(param transform)', cx.arg(tv[0], 1)) is not None and match('(field shape (param self))', cx.arg(tv[0], 0)) is not None
+        ok = ok and all(b.dominates(tv[0].bb, e) for e in b.exits())
+        cx.ob('KIND', 'Mesh::transform', ok, 'Mesh::transform moves every vertex of the stored shape by the given isometry (parry transform_vertices), on EVERY path: no isometry is short-cut', where=b.file)
+        no_projections(cx, b, 'transform', 'Mesh::transform')
+
+
 def plane_transform_rule(cx):
     """shared with C13 (sectioning / splitting commutes with a rigid motion of mesh and plane together)"""
     b = cx.fn('geom3::plane3::Plane3::transform_by')
@@ -150,11 +161,7 @@ def run(cx):
                 okst += 1
         cx.ob('KIND', 'PointCloud::transform:in-place', okst == 2, 'each element is overwritten by the transform of ITSELF (points and normals)', where=b.file, found=str(okst))
         no_projections(cx, b, 'transform', 'PointCloud::transform')
-    b = cx.fn('geom3::mesh::Mesh::transform')
-    if b:
-        tv = b.calls('TriMesh::transform_vertices')
-        cx.ob('KIND', 'Mesh::transform', len(tv) == 1 and match('(param transform)', cx.arg(tv[0], 1)) is not None, 'Mesh::transform moves every vertex by the given isometry (parry transform_vertices)', where=b.file)
-        no_projections(cx, b, 'transform', 'Mesh::transform')
+    mesh_transform_rule(cx)
     plane_transform_rule(cx)
     b = cx.fn('geom2::curve2::Curve2::transformed_by')
     if b:
